@@ -30,6 +30,8 @@ class TPKT(ParsableBase):
         parser.parse_numeric('reserved', 1)
         parser.parse_numeric('packet_length', 2)
 
+        if parser['packet_length'] < cls.HEADER_SIZE:
+            raise InvalidValue(parser['packet_length'], TPKT, 'packet_length')
         if len(parsable) < parser['packet_length']:
             raise NotEnoughData(parser['packet_length'] - len(parsable))
 
